@@ -510,25 +510,29 @@ Qed.
 
 (** the final level: the candidate as the last token, read at the counter [posf] *)
 Theorem final_tailw tbl w curf pif l cd pcf posf vf : lvlw pcf -> lvl_rel pcf curf ->
-  complete_arg tbl w curf pif ValueDone = COk l -> In cd l -> cand_classw pcf posf vf w cd ->
+  complete_arg tbl w (sub_cut curf vf) pif ValueDone = COk l -> In cd l -> cand_classw pcf posf vf w cd ->
   forall f st, fs_skip st = 0 ->
     no_unknown (do lr <- parse_loop pcf [cd_value cd] (mkL PSValuesDone posf vf false) st; dispatch_lr f pcf lr).
 Proof.
   intros Hl Hrel Hc Hin Hcc f st Hfs.
   pose proof (lvl_rel_same_level pcf curf Hrel) as Hsl.
+  assert (Hargs : c_args pcf = c_args (sub_cut curf vf)) by (rewrite sub_cut_args; exact (proj1 Hsl)).
   unfold cand_classw in Hcc. destruct (cd_id cd) as [[aid|n]|] eqn:Hid; [| |contradiction].
   - destruct Hcc as [Htk [Hsp [Hnn Hwf]]].
-    destruct (option_candidate_step tbl w curf pif l cd aid pcf (w_app pcf Hl) (w_sa pcf Hl) Hsl Hc Hin Hid
-                (typed_known_args pcf curf w (proj1 Hsl) Htk)) as [a [Ha [Haid H]]].
+    destruct (option_candidate_step_args tbl w (sub_cut curf vf) pif l cd aid pcf (w_app pcf Hl) (w_sa pcf Hl) Hargs Hc Hin Hid
+                (typed_known_args pcf (sub_cut curf vf) w Hargs Htk)) as [a [Ha [Haid H]]].
     pose proof (Hwf a Ha Haid) as Hn.
-    pose proof (cand_not_positional_w tbl w curf pif l cd aid pcf Hl (proj1 Hsl) Hc Hin Hid a Ha Haid) as Hp.
-    destruct (cand_dash tbl w curf pif l cd aid Hc Hin Hid) as [r Er].
+    pose proof (cand_not_positional_w tbl w (sub_cut curf vf) pif l cd aid pcf Hl Hargs Hc Hin Hid a Ha Haid) as Hp.
+    destruct (cand_dash tbl w (sub_cut curf vf) pif l cd aid Hc Hin Hid) as [r Er].
     assert (Hq : quiet_state pcf (cd_value cd) posf vf st).
     { split; [rewrite Er; apply dash_no_sub; exact Hsp|]. split; [exact Hfs|].
       unfold negnum_free_at in Hnn. destruct (get_pos pcf posf); [rewrite Hnn|]; reflexivity. }
     destruct (H Hp Hn posf vf st Hq) as [h [Hocc Heq]]. rewrite (Heq []).
     apply (after_opt_nil f pcf a h posf Hocc).
   - destruct Hcc as [Hcu Hng].
+    assert (Hcut : sub_cut curf vf = curf).
+    { unfold sub_cut. rewrite <- (lvl_rel_is_set pcf curf s_args_negate_subs Hrel), Hng. reflexivity. }
+    rewrite Hcut in Hc.
     destruct (subcommand_candidate_accepted tbl w curf pif l cd n pcf (w_app pcf Hl) Hsl Hc Hin Hid)
       as [sc [Hsc [Hn [Hal Hacc]]]].
     destruct (Hacc Hcu [] posf vf st Hng) as [n' [Ha' [Hf' [_ Hloop]]]].
@@ -544,11 +548,11 @@ Proof.
 Qed.
 
 (** the engine's state at the cursor of a whole line: [ValueDone], before `--`, at a level related to the parser's,
-    and [pos_index] IS the parser's positional counter *)
+    [pos_index] IS the parser's positional counter and [valid_arg_found] the parser's flag *)
 Theorem shadow_pline c0 bin line w after pcf posf vf f b :
   tree_all unb c0 -> is_set s_no_binary_name c0 = false -> N.of_nat (length line) + 2 <= usize_max ->
   build_full f c0 = BOk b -> pline (build_self (with_bin c0 bin)) line pcf posf vf ->
-  exists curf, start_walk b (bin :: line ++ w :: after) (N.of_nat (S (length line))) = WAt w curf posf ValueDone false
+  exists curf, start_walk b (bin :: line ++ w :: after) (N.of_nat (S (length line))) = WAt w curf posf ValueDone false vf
                /\ lvl_rel pcf curf.
 Proof.
   intros Hu Hnb Hlen Hb Hline.
@@ -580,14 +584,14 @@ Theorem candidate_accepted_pline tbl c0 bin line w after l cd pcf posf vf e :
   parse_top c0 (bin :: line ++ [cd_value cd]) = OErr e -> ~ unknown_kind (e_kind e).
 Proof.
   intros Hu Hnb Hlen Hline Hm Hin Hcc Hp Hk.
-  destruct (model_ok_inv tbl c0 _ _ l Hm) as [b [w' [cur [pi [st [esc [Hb [Hw Hc]]]]]]]].
+  destruct (model_ok_inv tbl c0 _ _ l Hm) as [b [w' [cur [pi [st [esc [vaf [Hb [Hw [_ Hc]]]]]]]]]].
   pose proof (root_rel _ c0 bin b Hu Hb) as Hrel.
   assert (Hnb' : is_set s_no_binary_name b = false).
   { rewrite <- (lvl_rel_is_set _ _ s_no_binary_name Hrel), build_self_nbn.
     destruct (with_bin_cases c0 bin) as [-> | ->]; [exact Hnb|]. destruct c0; exact Hnb. }
   rewrite (start_walk_run b bin line w after Hnb' Hlen) in Hw.
   destruct (eng_pline _ line pcf posf vf Hline b Hrel) as [curf [Hrun Hrelf]].
-  rewrite Hrun in Hw. cbn [walk_of] in Hw. inversion Hw; subst w' cur pi st esc. clear Hw.
+  rewrite Hrun in Hw. cbn [walk_of] in Hw. inversion Hw; subst w' cur pi st esc vaf. clear Hw.
   pose proof (pline_final _ _ _ _ _ Hline) as Hlf.
   rewrite (parse_top_unfold c0 bin _ Hnb) in Hp. unfold do_parse in Hp.
   destruct (negb (valid (with_bin c0 bin))); [discriminate|].
@@ -782,7 +786,7 @@ Qed.
 Example ex_pline_walk :
   (match build_full (build_fuel exw) exw with
    | BOk b => match start_walk b (b1 112 :: lineB ++ [[]]) (N.of_nat (S (length lineB))) with
-              | WAt _ cur pi ValueDone false => beq (c_name cur) w_add && (pi =? 2)
+              | WAt _ cur pi ValueDone false true => beq (c_name cur) w_add && (pi =? 2)
               | _ => false end
    | _ => false end) = true.
 Proof. vm_compute. reflexivity. Qed.
@@ -924,7 +928,7 @@ Definition f : bytes := [45; 102].
 Definition has_cand (v : bytes) (i : cid) (r : cres) : bool :=
   match r with COk l => existsb (fun cd => beq (cd_value cd) v && opt_cid_eqb (cd_id cd) (Some i)) l | _ => false end.
 Definition level_of (w : walk) : option bytes :=
-  match w with WAt _ cur _ ValueDone false => Some (c_name cur) | _ => None end.
+  match w with WAt _ cur _ ValueDone false _ => Some (c_name cur) | _ => None end.
 Definition level_at (c : cmd) (args : list bytes) (i : N) : option bytes :=
   match build_full (build_fuel c) c with BOk b => level_of (start_walk b args i) | _ => None end.
 Definition level_at_before_fix (c : cmd) (args : list bytes) (i : N) : option bytes :=
@@ -938,8 +942,8 @@ End Conflict.
     Before the repair the engine stood at the level of `sub` behind `p -f sub` and offered its option `--opt`
     (id arg::opt): a candidate of the wrong level, rejected as unknown by the parser behind a line it accepts.
     After: the engine stands at `p` and does not offer `--opt`.
-    W1 (no positional), unchanged by the repair: `p -f <TAB>` offers the SUBCOMMAND candidate `sub`; the parser
-    rejects `p -f sub` with ArgumentConflict - not an unknown-token kind ([complete_arg] is not told the flag). *)
+    W1 (no positional): the parser rejects `p -f sub` with ArgumentConflict.  Before, `p -f <TAB>` offered the SUBCOMMAND
+    candidate `sub`; after ([complete_arg] is told the flag) it does not. *)
 Theorem args_conflict_before_after :
   (* W2: the parser *)
   Conflict.accepted (parse_top Conflict.c2 [[112]; Conflict.f; Conflict.w_sub]) = true /\
@@ -953,7 +957,8 @@ Theorem args_conflict_before_after :
   Conflict.has_cand (45 :: 45 :: Conflict.w_opt) (IdArg Conflict.w_opt)
     (complete_model [] Conflict.c2 [[112]; Conflict.f; Conflict.w_sub; [45; 45]] 3) = false /\
   (* W1 *)
-  Conflict.has_cand Conflict.w_sub (IdCmd Conflict.w_sub) (complete_model [] Conflict.c1 [[112]; Conflict.f; []] 2) = true /\
+  Conflict.has_cand Conflict.w_sub (IdCmd Conflict.w_sub) (complete_model_before_fix [] Conflict.c1 [[112]; Conflict.f; []] 2) = true /\
+  Conflict.has_cand Conflict.w_sub (IdCmd Conflict.w_sub) (complete_model [] Conflict.c1 [[112]; Conflict.f; []] 2) = false /\
   Conflict.kind_of (parse_top Conflict.c1 [[112]; Conflict.f; Conflict.w_sub]) = Some EArgumentConflict /\
   Conflict.level_at_before_fix Conflict.c1 [[112]; Conflict.f; Conflict.w_sub; []] 3 = Some Conflict.w_sub /\
   Conflict.level_at Conflict.c1 [[112]; Conflict.f; Conflict.w_sub; []] 3 = Some [112].
@@ -1011,12 +1016,12 @@ Example ex_precedence_of_level :
   let line := [WideExample.w_remote; [102; 49]; [102; 50]; [97; 100]] in
   (match build_full (build_fuel exw_root_prec) exw_root_prec with
    | BOk b => match start_walk b ([112] :: line ++ [[]]) 5 with
-              | WAt _ cur 1 (Pos 1 3) false => beq (c_name cur) WideExample.w_remote
+              | WAt _ cur 1 (Pos 1 3) false true => beq (c_name cur) WideExample.w_remote
               | _ => false end
    | _ => false end) = true /\
   (match build_full (build_fuel WideExample.exw) WideExample.exw with
    | BOk b => match start_walk b ([112] :: line ++ [[]]) 5 with
-              | WAt _ cur 1 ValueDone false => beq (c_name cur) WideExample.w_add
+              | WAt _ cur 1 ValueDone false false => beq (c_name cur) WideExample.w_add
               | _ => false end
    | _ => false end) = true /\
   Conflict.kind_of (parse_top exw_root_prec ([112] :: line ++ [WideExample.ddw WideExample.w_force])) = Some EUnknownArgument /\
